@@ -16,6 +16,8 @@
 use crate::common::*;
 #[path = "c04_bolt3.rs"]
 mod bolt3;
+#[path = "c04_parse.rs"]
+mod parse;
 use bolt3::*;
 use lightning_signer::lightning::sign::ChannelSigner;
 use lightning_signer::bitcoin::absolute::LockTime;
@@ -1670,5 +1672,5 @@ fn build_case(sd: &SetupD, c: &ContentD, rng: &mut Rng, tier: Tier) -> Option<Ve
 }
 
 pub fn groups() -> Vec<Box<dyn Group>> {
-    vec![Box::new(C04)]
+    vec![Box::new(C04), Box::new(parse::C04Parse)]
 }
